@@ -35,6 +35,7 @@ type c12Case struct {
 	Bound   int    `json:"bound,omitempty"` // preemption bound (-1 = unbounded)
 	Prefix  []int  `json:"prefix,omitempty"`
 	Split   int    `json:"split,omitempty"`
+	Sparse  int    `json:"sparse,omitempty"`  // low-entropy shards, see c12Sparsify
 	Odd     bool   `json:"odd,omitempty"`     // every input shard is a sub-slice starting at an odd offset of a larger buffer (as slices found displaced in a damaged file are)
 	NoSSSE3 bool   `json:"nossse3,omitempty"` // partition / par2g with the SSSE3 dispatch flag forced off
 }
@@ -68,7 +69,52 @@ func c12Displace(sh [][]byte) [][]byte {
 // c12Body runs encode + reconstruct with g goroutines and compares with
 // the single-goroutine result.
 func c12Body(r *core.Rec, seed int64, d, p, length, g int, odd bool) bool {
+	return c12BodyS(r, seed, d, p, length, g, odd, 0)
+}
+
+// c12Sparsify: low-entropy shards. 1: shards 1.. are zero except their first and last word; 2: every shard is zero
+// except its last word; 3: the middle half of every shard is zero; 4: shards 1.. are zero except the last word of
+// every 16-byte block and the last word of the shard. Any shortcut taken for "empty" stretches of input has to be
+// taken identically for every partition of the shard among goroutines.
+func c12Sparsify(data [][]byte, sparse int) {
+	for i, sh := range data {
+		n := len(sh)
+		if n < 4 {
+			continue
+		}
+		switch sparse {
+		case 1:
+			if i >= 1 {
+				for k := 2; k < n-2; k++ {
+					sh[k] = 0
+				}
+				sh[n-1] |= 1
+			}
+		case 2:
+			for k := 0; k < n-2; k++ {
+				sh[k] = 0
+			}
+			sh[n-1] |= 1
+		case 3:
+			for k := n / 4; k < 3*n/4; k++ {
+				sh[k] = 0
+			}
+		case 4:
+			if i >= 1 {
+				for k := 0; k < n-2; k++ {
+					if k%16 < 14 {
+						sh[k] = 0
+					}
+				}
+				sh[n-1] |= 1
+			}
+		}
+	}
+}
+
+func c12BodyS(r *core.Rec, seed int64, d, p, length, g int, odd bool, sparse int) bool {
 	data := c07Data(seed, d, length)
+	c12Sparsify(data, sparse)
 	ref := c12Code(d, p, 1).GenerateParity(data)
 	if odd {
 		data = c12Displace(data)
@@ -256,6 +302,16 @@ func c12Gen(g *core.Gen) {
 			g.Emit(&c12Case{Kind: "partition", Len: l, D: 3, P: 2, GLo: 1, GHi: 41, Odd: true})
 		}
 	}
+	// low-entropy shards (zero stretches with non-zero words at the very end / at block ends): every even length to 300
+	// and lengths that are not multiples of 16 beyond, g 1..40
+	for sp := 1; sp <= 4; sp++ {
+		for l := 4; l <= 300; l += 2 {
+			g.Emit(&c12Case{Kind: "partition", Len: l, D: 3, P: 2, GLo: 1, GHi: 41, Sparse: sp})
+		}
+		for _, l := range []int{1000, 1026, 2004, 4098, 65550} {
+			g.Emit(&c12Case{Kind: "partition", Len: l, D: 3, P: 2, GLo: 1, GHi: 41, Sparse: sp})
+		}
+	}
 	// codes with more rows (several missing rows per goroutine): short and medium shards x g 1..16
 	for l := 2; l <= 200; l += 2 {
 		g.Emit(&c12Case{Kind: "partition", Len: l, D: 6, P: 5, GLo: 1, GHi: 17})
@@ -306,14 +362,14 @@ func c12Run(ci interface{}, r *core.Rec) {
 	case "partition":
 		n := 0
 		for gg := c.GLo; gg < c.GHi; gg++ {
-			if !c12Body(r, r.Seed, c.D, c.P, c.Len, gg, c.Odd) {
+			if !c12BodyS(r, r.Seed, c.D, c.P, c.Len, gg, c.Odd, c.Sparse) {
 				return
 			}
 			n++
 		}
 		r.AddStates(n)
 		r.AddTransitions(2 * n)
-		r.Outcome(fmt.Sprintf("partition %d %d", c.Len, c.D))
+		r.Outcome(fmt.Sprintf("partition %d %d %d", c.Len, c.D, c.Sparse))
 		if c.Len > 16 {
 			r.NontrivialCase()
 		}
